@@ -49,6 +49,18 @@ def sanitiser_fns(crates):
                 import json
                 if re.search(r"path::Component::(ParentDir|Normal)", json.dumps(f.hir)):
                     out.add(f.path)
+    # a function that hands one of those (a named component predicate) to an iterator over `components()` is the sanitiser proper
+    changed = True
+    while changed:
+        changed = False
+        for c in crates:
+            for f in c.fn_list:
+                if not f.hir or f.path in out:
+                    continue
+                uses_pred = any(n.get("k") == "path" and n["res"].get("def") in out for n in hirq.walk(f.hir["body"])) or any((n.get("fn") or "") in out for n in hirq.walk(f.hir["body"]) if n.get("k") == "call")
+                if uses_pred and any(n.get("k") == "mcall" and n["m"] == "components" for n in hirq.walk(f.hir["body"])):
+                    out.add(f.path)
+                    changed = True
     return out
 
 
@@ -221,6 +233,13 @@ def run(ctx):
                 COMP = ["Prefix", "RootDir", "CurDir", "ParentDir", "Normal"]
                 decided = False
                 cl = hirq.strip(x["args"][0]) if x["args"] else None
+                if cl is not None and cl.get("k") == "path" and "def" in cl["res"]:
+                    # a named predicate (`.all(stays_inside)`): its body with its own parameter
+                    pf = next((g for c_ in (cli, mpq) for g in c_.fn_list if g.hir and g.path == cl["res"]["def"]), None)
+                    if pf is not None:
+                        cl = {"k": "closure", "params": pf.hir["params"], "body": pf.hir["body"]}
+                        ptxt = _json.dumps(pf.hir)
+                        variants = set(re.findall(r"path::Component::(\w+)", ptxt))
                 if cl is not None and cl.get("k") == "closure" and x["m"] in ("all", "any"):
                     pn = [b for p_ in cl.get("params", []) or [] for b in hirq.pat_binds(p_)]
                     try:
